@@ -201,6 +201,64 @@ def plan_c15(tier, seed):
 
 
 CAP_KINDS = ["pool<node>", "pool<array>", "pool<small>"]
+BAD_KINDS = ["pool<node>", "pool<array>", "pool<small>", "stack", "block-source"]
+
+
+def plan_c16(tier, seed):
+    q = tier == "quick"
+    n = _scale(tier, 100, 1200)
+    jobs = []
+    for cfg in ("rwd", "dbg", "chk"):
+        for k in BAD_KINDS:
+            jobs += [Job("h_debug", cfg, "plain", "bad", k, c, cpu=300) for c in chunks(n, 50 if q else 200)]
+    # "valid releases in any order never trigger a report": valid histories with the recording handlers, in every configuration
+    cfgs = ["rwd", "dbg", "chk"] if q else ["rel", "rwd", "dbg", "dbg16", "chk"]
+    m = _scale(tier, 30, 500)
+    jobs += pool_jobs(cfgs, ["walk", "corner"], m, 250, _scale(tier, 30, 100)) + coll_jobs(cfgs, ["walk"], m // 2, 250, _scale(tier, 30, 100)) \
+        + stack_jobs(cfgs, ["walk"], m, 250, _scale(tier, 30, 100), kinds=STACK_KINDS)
+    return dict(jobs=jobs, level="fault_enumeration",
+                rule="(a) one child process per bad call: a seeded valid prefix on a real allocator, then exactly one invalid release of a class the "
+                     "configuration's checks cover (small-node pool: foreign pointer, chunk header, before/after every chunk, misaligned; node/array/"
+                     "small pools with the double-free check: first / last / most recently freed / middle free node; memory_stack: stale marker above "
+                     "the top in the same and in a dropped block; static / virtual / fixed block sources: out-of-order or foreign block). The child's "
+                     "end is classified handler / abort / other fatal signal / continued; continued = missed = violation; a report during the valid "
+                     "prefix is a violation too. (b) valid histories of pools, collections and stacks in every configuration with counting handlers "
+                     "that must stay at zero. non-trivial = a case that performed a bad call in a child, or a valid history that released memory with "
+                     "several allocations live; distinct = FNV-1a of kind, configuration and operation sequence",
+                assumptions=ASSUME_COMMON + ["'stops the program' is accepted in any form (handler, assertion, unreachable path) as the property says",
+                                             "pointers to unmapped memory are not used: the debug fill writes to the pointer before any check"],
+                minima={"cases": 500, "distinct_nontrivial": 300, "outcome_handler": 300, "outcome_abort": 50, "release_node": 5000})
+
+
+FENCE_KINDS = ["heap_allocator", "malloc_allocator", "new_allocator", "virtual_memory_allocator"]
+
+
+def plan_c17(tier, seed):
+    q = tier == "quick"
+    n = _scale(tier, 12, 60)
+    jobs = []
+    for cfg in (["rwd", "dbg", "dbg16"] if q else ["rwd", "dbg", "dbg16", "chk"]):
+        for k in FENCE_KINDS:
+            extra = ["--values", "3" if q else "8"] + ([] if q else ["--allvalues", "1"])
+            jobs += [Job("h_debug", cfg, "plain", "fence", k, c, extra=extra, cpu=600) for c in chunks(n, 6)]
+    # (b) fill patterns: the shadow heap checks the new-memory pattern of every fresh allocation and the freed pattern of released pool nodes
+    cfgs = ["rwd", "dbg"] if q else ["rwd", "dbg", "dbg16", "chk"]
+    m = _scale(tier, 30, 500)
+    ck = _scale(tier, 30, 100)
+    jobs += pool_jobs(cfgs, ["walk"], m, 250, ck) + coll_jobs(cfgs, ["walk"], m // 2, 250, ck) \
+        + stack_jobs(cfgs, ["walk"], m, 250, ck, kinds=STACK_KINDS + ITER_KINDS + ["static_allocator"]) + low_jobs(cfgs, m, 250, ck)
+    return dict(jobs=jobs, level="fault_enumeration",
+                rule="(a) per low-level allocator and node (size classes: 1..40, 2^k-1..2^k+1, around 4096, 1..4100; alignments 1..16): the fence extent is "
+                     "measured by scanning outward from the node for the fence pattern; then one byte at every fence offset (page-sized fences of "
+                     "virtual memory: the 24 offsets at each edge plus a 2% seeded sample) is overwritten with values different from the pattern "
+                     "(quick 3 values, thorough 8 and all 255 at the four edge offsets), the node is released and the recording handler must have been "
+                     "called exactly once with (node, size, address of that byte); front+back corruption: first report names the lowest address; "
+                     "in-bounds writes of any byte incl. the fence value: never reported; fence-0 configuration as control. (b) histories in every "
+                     "fill configuration where every fresh allocation must carry the new-memory pattern on all bytes and released pool nodes the "
+                     "freed pattern behind the link bytes. non-trivial = a corruption case, or a history with several live allocations and releases",
+                assumptions=ASSUME_COMMON + ["(a) runs without a sanitizer because the fence extent is measured by reading outward from the node"],
+                minima={"cases": 300, "distinct_nontrivial": 200, "corruptions": 10000, "double_corruptions": 300, "inbounds_checks": 200,
+                        "new_fill_bytes_checked": 1000000, "freed_fill_bytes_checked": 100000})
 
 
 def plan_c18(tier, seed):
@@ -264,6 +322,8 @@ def plan_c19(tier, seed):
 
 
 PLANS = {
+    "C16": plan_c16,
+    "C17": plan_c17,
     "C18": plan_c18,
     "C19": plan_c19,
     "C01": plan_c01,
